@@ -216,7 +216,7 @@ def check_split_rerun(nb: int, k0: int, k1: int, bs: int, explicit: bool, flow: 
     pre: 0 <= k0 <= 4 and 0 <= k1 <= 4
     pre: 1 <= bs <= B.BUF + 2
     pre: len(flow) <= B.FLOW
-    pre: h.in_shard(k0)
+    pre: h.in_shard(k0 + 5 * (bs % 2))
     post: _
     """
     # a Split object run again (its branches have no state of their own)
@@ -401,7 +401,7 @@ CONDITIONS = [
                 "check_split_run(2, 0, 3, 0, 1, 1, [5, 7])",
                 "check_split_run(2, 6, 4, 0, 0, 4, [])",
                 "check_split_run(0, 0, 0, 0, 0, 1, [4, 5])"]),
-    dict(fn="check_split_rerun", shards=(5, 5), budget=(70, 600),
+    dict(fn="check_split_rerun", shards=(10, 10), budget=(150, 600),
          smoke=["check_split_rerun(2, 0, 2, 1, False, [5, 7])", "check_split_rerun(2, 1, 3, 2, True, [5, 7, 9])"]),
     dict(fn="check_split_copy_buf", shards=(7, 7), budget=(90, 300),
          smoke=["check_split_copy_buf(1, 5, 0, 1, False, [5, 7])"]),
